@@ -39,3 +39,14 @@ Example C12_example :
    | Some (_, props) => qfind props [1%nat] = Some (B 1 1) /\ qfind props [2%nat] = Some (B 1 1) | None => False end).
 Proof. vm_compute. repeat split; reflexivity. Qed.
 Print Assumptions C12_example.
+
+(* nested quantifiers (Forall(x, y, f) nests; any explicit nest): the outer quantifier's downward step is the same n-ary
+   inverse over the inner quantifier's groundings (C12_sound_instantiation applies with the inner bounds as `bs`; a fully
+   quantified outer formula reads all of them: C12_fully_quantified_is_nary), and aggregating its proposals into the inner
+   quantifier's per-grounding neurons keeps every consistent reading of the inner groundings *)
+Theorem C12_nested_push_sound : forall inner props v, (forall g, 0 <= v g <= 1) -> qneu_sound inner v ->
+  (forall g p, In (g, p) props -> inb p (v g)) ->
+  qneu_sound (fst (q_push_inner inner props)) v /\ qtab (fst (q_push_inner inner props)) = qtab inner /\
+  0 <= snd (q_push_inner inner props).
+Proof. exact q_push_inner_sound. Qed.
+Print Assumptions C12_nested_push_sound.
